@@ -230,14 +230,17 @@ def build_harness(spec):
     exe = os.path.join(outdir, "%s_%s" % (name, key))
     with Lock(os.path.join(CACHE, "harness_%s.lock" % name)):
         if os.path.exists(exe):
+            os.utime(exe)
             return exe, "cached"
-        # drop stale binaries of the same harness
-        for f in os.listdir(outdir):
-            if f.startswith(name + "_"):
-                try:
-                    os.unlink(os.path.join(outdir, f))
-                except OSError:
-                    pass
+        # drop stale binaries of the same harness, but keep the three most recently used ones: a
+        # concurrent check against another tree (or an earlier state of the tree) may still run them
+        old = sorted((f for f in os.listdir(outdir) if f.startswith(name + "_") and not f.endswith((".tmp", ".build"))),
+                     key=lambda f: os.path.getmtime(os.path.join(outdir, f)), reverse=True)
+        for f in old[3:]:
+            try:
+                os.unlink(os.path.join(outdir, f))
+            except OSError:
+                pass
         incs = []
         for i in DEFAULT_INCLUDES + list(spec.get("includes", [])):
             incs += ["-I", os.path.join(REPO, i) if i else REPO]
